@@ -56,6 +56,18 @@ CLAIMED = {
    text='Demand.tla is the demand-propagation machine of the statement: a request for output positions of a stage (first k results of an iteration / the single result ds[i]) is translated stage by stage (map, lazy and eager filter, slice, batch, unbatch, items, copy, cache, catch, concatenate, thread prefetch) into the exact sequence of inputs every user function must be applied to, with read-ahead only where the statement allows it (prefetch buffer, running into the end). TLC enumerates all chain programs up to depth 3 over sources of up to 3 examples; each is executed on the real library with logging user functions - construction, a fresh iterator for EVERY prefix length k in 0..len+1, ds[i] for every i - and TLC judges the recorded call logs: nothing at construction of lazy stages, exactly the needed examples, once, in request order.',
    note='Property-level specification (not implementation-shaped): conformance is the exact match of call sequences. Trusted: TLC, the logging twins. Key lookup ds[key] is covered through integer access of the same position only.',
    tech='TLA+ demand-propagation machine, TLC enumeration + trace validation of real call logs'),
+ 'C11': dict(engine='diskcache', cat='model_checking', ref='DESIGN.md section 6 C11',
+   text='DiskCache.tla: state machine over LIFECYCLES on one directory (absent / empty / entries / foreign files), wrappers with reuse and clear and a reference count shared by copies, upstream call counters: Open(reuse, clear), Access by int / negative / numpy index, Copy, Release (last release = __del__: close, rmtree iff clear), KillWriter (process death between two stores), Reopen. TLC enumerates all lifecycles (quick: 2 examples, <= 5 actions) and checks the design; every lifecycle is replayed on REAL directories (Release = drop the reference + gc.collect(); KillWriter = a forked child SIGKILLed between two stores, every position) and TLC judges the recorded observations: ValuesExact, ReuseServesStored, NeverMisplaced, RefuseNonEmpty, ClearedIffAsked, CopiesKeepAlive.',
+   note='One store is atomic in the spec; kills at random instants inside a store (thorough) are sampling below that atomicity and reported as such. Two independent datasets opened on one directory are outside "the last dataset sharing the cache" (sharing = copy()).',
+   tech='TLA+ lifecycle state machine, TLC BFS + replay with real directories and SIGKILLed writers + trace validation'),
+ 'C12': dict(engine='random', cat='model_checking', ref='DESIGN.md section 6 C12',
+   text='Random.tla: every rng call is nondeterminism resolved by TLC (shuffle: any permutation, choice(k): any value); ReShuffleDataset with its ONE shared in-place permutation array and iterators holding positions into it, LocalShuffleDataset buffer machine, one-time shuffle, tile(shuffle=True), random_choice. TLC explores all interleavings of the next() calls of 2 (thorough 3) iterators over one dataset object for n <= 3 (4), all rng answers; every behaviour is replayed on the real classes with a scripted rng and the same interleaving, plus real numpy generators and self-zip / self-intersperse compositions; TLC judges IsPermutation, NoRepeatSoFar, Displacement, ChoiceWithoutReplacement on the real outputs.',
+   note='A generator body runs atomically between two yields (single-threaded CPython). S7 (interleaved iterators over one ReShuffleDataset) is a recorded finding, classified by the verdict exactly when another iterator reshuffled while the violating one was in flight.',
+   tech='TLA+ model of the shuffle stages with rng as nondeterminism, TLC BFS over interleavings + scripted-rng replay + trace validation'),
+ 'C13': dict(engine='random', cat='model_checking', ref='DESIGN.md section 6 C13',
+   text='Seeds.tla: generators as explicit streams (seed, position), generator 0 = the global numpy state which an adversary re-seeds between any two steps; twin builds of pipelines with 1-3 random stages (reshuffle, local shuffle, one-time shuffle, lazy apply) wrapped by copy / copy(freeze) / prefetch(1,b) / prefetch(2,b), 3 epochs. TLC enumerates the scenarios and checks the design; each is executed on the real library with RandomState / default_rng generators and adversarial np.random.seed calls and TLC judges TwinsAgree, GlobalIndependent, FrozenFixed, Unordered, CopyAgrees, PrefetchAgrees; CopyKeepsParams compares vars() of every Dataset class with its own copy() against its copy.',
+   note='The design-level verdicts use one fixed stream function. S19 (copy un-shares a reshuffle object used twice) is a recorded finding.',
+   tech='TLA+ model of generator streams and copy(freeze), TLC enumeration + replay with real numpy generators + trace validation'),
 }
 
 PENDING_REASON = 'check not built yet in this round (specification planned in DESIGN.md section 6); will be claimed when its check exists'
@@ -99,6 +111,10 @@ def main():
              'kind_free_text': 'TLA+ specs Values/Ref/Impl/Obs/Pipeline/PipelineTrace checked with TLC; harness/{build,observe,pipeline}.py bind them to the code in both directions'},
             {'name': 'demand', 'path': '/verif/specs/Demand.tla', 'serves_properties': ['C08'],
              'kind_free_text': 'Demand.tla / DemandTrace.tla + harness/check_demand.py'},
+            {'name': 'diskcache', 'path': '/verif/specs/DiskCache.tla', 'serves_properties': ['C11'],
+             'kind_free_text': 'DiskCache.tla / DiskCacheTrace.tla + harness/check_diskcache.py'},
+            {'name': 'random', 'path': '/verif/specs/Random.tla', 'serves_properties': ['C12', 'C13'],
+             'kind_free_text': 'Random.tla / Seeds.tla + trace specs + harness/check_random.py, check_seeds.py'},
             {'name': 'shards', 'path': '/verif/specs/Shards.tla', 'serves_properties': ['C15'],
              'kind_free_text': 'Shards.tla / ShardsTrace.tla + harness/check_shards.py'},
             {'name': 'bucket', 'path': '/verif/specs/Bucket.tla', 'serves_properties': ['C17'],
